@@ -102,6 +102,14 @@ func (b *builder) build(name string) (*variant, error) {
 	if inst {
 		srcKind = "inst"
 	}
+	// tuning-knob variants ("plain-b16", "plain-b96"): the same tree with other
+	// buffer sizes, so that correctness never silently depends on one
+	// configuration (a refill boundary every 16 / 96 bytes instead of 512)
+	knob := 0
+	if i := strings.Index(name, "-b"); i >= 0 {
+		fmt.Sscanf(name[i+2:], "%d", &knob)
+		srcKind = fmt.Sprintf("plain-b%d", knob)
+	}
 	dir := filepath.Join(b.scratch, "src-"+srcKind)
 	gj := filepath.Join(dir, "gojson")
 	if _, err := os.Stat(gj); err != nil {
@@ -120,6 +128,12 @@ func (b *builder) build(name string) (*variant, error) {
 				return nil, err
 			}
 			os.WriteFile(filepath.Join(vs, e.Name()), data, 0o644)
+		}
+		if knob > 0 {
+			n := 0
+			n += replaceInFile(filepath.Join(gj, "internal", "decoder", "stream.go"), "initBufSize = 512", fmt.Sprintf("initBufSize = %d", knob))
+			n += replaceInFile(filepath.Join(gj, "internal", "encoder", "context.go"), "bufSize = 1024", fmt.Sprintf("bufSize = %d", knob))
+			fmt.Fprintf(b.log, "[build] knob variant %s: %d of 2 buffer-size constants rewritten in the scratch copy\n", name, n)
 		}
 		if inst {
 			rep, err := instrument.Rewrite(gj, "github.com/goccy/go-json")
@@ -164,4 +178,13 @@ func (b *builder) build(name string) (*variant, error) {
 	b.built[name] = v
 	fmt.Fprintf(b.log, "[build] variant %s built in %.1fs (%s)\n", name, time.Since(t0).Seconds(), v.Hash)
 	return v, nil
+}
+
+func replaceInFile(path, old, new string) int {
+	data, err := os.ReadFile(path)
+	if err != nil || !strings.Contains(string(data), old) {
+		return 0
+	}
+	os.WriteFile(path, []byte(strings.Replace(string(data), old, new, 1)), 0o644)
+	return 1
 }
